@@ -1,5 +1,6 @@
 (* Props/C20.v -- property theorems for C20 only. *)
-From LV Require Import Base FS FSFacts LayerShared Determinism.
+From LV Require Import Base FS FSFacts LayerShared Determinism LayerEnv LayerEnvFS LayerEnvFSExact FSInv LayerEnvFSCompose LayerEnvFSProc LayerEnvFSFull LayerEnvFSDet.
+From LVGen Require Import GenLayerEnv.
 From LV.Checks Require Import C20Hold C20Agree.
 From Coq Require Import Permutation.
 Open Scope N_scope.
@@ -33,6 +34,23 @@ Theorem c20_copy_loop_is_writes :
     exists s', iterM (copy_into d) progs s = (s', Ok tt) /\ fs_equiv s' (apply_writes (copy_writes d progs) s).
 Proof. exact copy_loop_is_writes. Qed.
 Print Assumptions c20_copy_loop_is_writes.
+
+(* environment files: the per-process deltas of a LayerEnv live in a HashMap; whatever order they are
+   written in, LayerEnv::write_to_layer_dir leaves the same file system (every path equal) *)
+Theorem c20_env_process_order_irrelevant :
+  forall e e' dir s,
+    le_all e' = le_all e -> le_build e' = le_build e -> le_launch e' = le_launch e ->
+    Permutation (le_process e) (le_process e') ->
+    fs_inv s dir ->
+    files_ok beh_order writer_suffix (le_all e) -> files_ok beh_order writer_suffix (le_build e) ->
+    files_ok beh_order writer_suffix (le_launch e) ->
+    procs_ok beh_order writer_suffix (le_launch e) (le_process e) ->
+    root_ok s (dir ++ [n_env]) -> root_ok s (dir ++ [n_env_build]) -> root_ok s (dir ++ [n_env_launch]) ->
+    exists s1 s2, write_to_layer_dir beh_order writer_suffix e dir s = (s1, Ok tt) /\
+                  write_to_layer_dir beh_order writer_suffix e' dir s = (s2, Ok tt) /\
+                  forall q, pget q s1 = pget q s2.
+Proof. exact (write_process_order_irrelevant beh_order writer_suffix). Qed.
+Print Assumptions c20_env_process_order_irrelevant.
 
 (* non-vacuity: an exec.d directory and two programs meet the hypotheses *)
 Example c20_nonvacuous :
